@@ -310,3 +310,54 @@ def composites_with_mixed_representatives(tier, rng, rep):
             rep.case(key=(t, hist), nontrivial=hist != "none" or not np.all(scales == 1), sample=inp if (t, hist) == (0, "distance") else None)
             if len(rep.failures) >= 3:
                 return
+
+
+@bounded(P, "coordinates_set_on_an_existing_point", functions=["geometry_tools/hyperbolic.py:Point.coords", "geometry_tools/hyperbolic.py:Point.kleinian_coords", "geometry_tools/hyperbolic.py:Point.poincare_coords",
+                                                               "geometry_tools/hyperbolic.py:Point.halfspace_coords", "geometry_tools/projective.py:ProjectiveObject.affine_coords", "geometry_tools/projective.py:ProjectiveObject.set"],
+         note="the round trip through the SETTER: coordinates in any model assigned to an existing point object (float-, integer-typed, of the same or another shape, created by get_origin or "
+              "from data) and read back in every model; arrays handed out earlier are not changed by the assignment")
+def coordinates_set_on_an_existing_point(tier, rng, rep):
+    N = 80 if tier == 'thorough' else 20
+    rep.rule = "n = 1..4; existing points: Point.get_origin(n) (float), Point.get_origin(n, dtype=int) where accepted, Point of integer lists, Point of another composite shape; new coordinates random interior, in each of the five models; shapes (), (3,)"
+    rep.bound = f"{N} rounds x 4 existing points x 5 models"
+    for t in range(N):
+        n = 1 + t % 4
+        shape = () if t % 2 else (3,)
+        v = rng.normal(size=shape + (n,))
+        k = v / np.linalg.norm(v, axis=-1, keepdims=True) * rng.uniform(0.05, 0.9, size=shape + (1,))
+        def existing():
+            out = {"float_origin": lambda: h.Point(np.broadcast_to(np.eye(n + 1)[0], shape + (n + 1,)).copy()),
+                   "integer_point": lambda: h.Point(np.broadcast_to(np.eye(n + 1, dtype=np.int64)[0], shape + (n + 1,)).copy()),
+                   "integer_list_point": lambda: h.Point([2] + [0] * (n - 1) + [1]) if shape == () else h.Point([[2] + [0] * (n - 1) + [1]] * 3),
+                   "other_shape": lambda: h.Point(np.broadcast_to(np.eye(n + 1)[0], (2, n + 1)).copy())}
+            try:
+                h.Point.get_origin(n, dtype=int)
+                out["get_origin_int"] = lambda: h.Point.get_origin(n, dtype=int)
+            except Exception:
+                pass
+            return out
+        for ename, mk in existing().items():
+            for m in spec.MODELS:
+                inp = {"n": n, "shape": list(shape), "existing": ename, "model": m, "klein_coordinates": k.tolist()}
+
+                def body():
+                    p = mk()
+                    handed_out = p.coords("projective")
+                    snapshot = np.array(handed_out, copy=True)
+                    data = np.asarray(spec.from_klein(k, m), dtype=float)
+                    p.coords(m, data.copy())
+                    for mo in spec.MODELS:
+                        got = np.asarray(p.coords(mo), dtype=float)
+                        want = np.asarray(spec.from_klein(k, mo), dtype=float)
+                        if mo == "projective":
+                            got, want = got / got[..., :1], want / want[..., :1]
+                        if mo == "hyperboloid":
+                            got = got * np.sign(got[..., :1])
+                        if got.shape != want.shape or not np.all(np.abs(got - want) <= 1e-7 * (1 + np.abs(want))):
+                            rep.fail("round_trip_through_the_setter", f"{ename}: coordinates set in {m}, read in {mo}: {got.tolist()} vs {want.tolist()}", {**inp, "read_model": mo}); return
+                    if np.shape(handed_out) == snapshot.shape and not np.array_equal(np.asarray(handed_out), snapshot):
+                        rep.fail("arrays_handed_out_earlier_unchanged", f"{ename}: projective coordinates returned before the assignment changed with it", inp)
+                rep.attempt("coords_run", inp, body)
+                rep.case(key=(t, ename, m), nontrivial=ename != "float_origin", sample=inp if (t, ename, m) == (0, "integer_point", "klein") else None)
+                if len(rep.failures) >= 3:
+                    return
